@@ -33,7 +33,7 @@ ASSUMPTIONS = [
 ]
 REPORT_COUNTERS = ["programs", "second_pass_calls_checked", "second_pass_after_register_checked", "warm_user_hook_calls",
                    "warm_internal_calls", "entry_paths_nested", "resolve_calls_checked", "watch_points", "introspection_between_calls",
-                   "parent_used_between_calls"]
+                   "parent_used_between_calls", "copies_derived_between_calls"]
 
 TOOL = 3
 WATCH = {}
@@ -71,7 +71,7 @@ def plan(tier):
     return {"cases": n, "params": {}, "timeout_s": 1200 if tier == "quick" else 7200,
             "min": {"second_pass_calls_checked": 2_000, "second_pass_after_register_checked": 1_000,
                     "warm_user_hook_calls": 5_000, "warm_internal_calls": 20_000, "entry_paths_nested": 500,
-                    "parent_used_between_calls": 300}}
+                    "parent_used_between_calls": 300, "copies_derived_between_calls": 500}}
 
 
 def _gen_t(rng, classes):
@@ -132,6 +132,8 @@ def check_case(spec, res):
     res.count("programs")
     res.sample({k: spec[k] for k in ("hier", "methods", "npos", "late")} | {"calls": spec["calls"][:3]})
 
+    derived = []
+
     def one_pass(order, check, label):
         outs = {}
         for k_, i in enumerate(order):
@@ -149,6 +151,13 @@ def check_case(spec, res):
                 except Exception:  # noqa: BLE001
                     pass
                 res.count("introspection_between_calls")
+                if k_ % 6 == 1:
+                    # deriving a copy / a linked copy from the function leaves its own set of methods alone
+                    try:
+                        derived.append(prog.ov.copy(linkback=(k_ % 12 == 1)))
+                        res.count("copies_derived_between_calls")
+                    except Exception:  # noqa: BLE001
+                        pass
                 base = getattr(prog, "base", None)
                 if base is not None:
                     # using the *parent* (for the first time, then again) changes nobody's set of methods
